@@ -9,9 +9,12 @@ Open Scope Z_scope.
 Section Histories.
 Variable h : addr.
 
+Lemma signers_named ops : Forall (signer_ok h) ops -> Forall named_ok ops.
+Proof. intros H. eapply Forall_impl; [|exact H]. intros o. apply signer_named. Qed.
+
 (** C07_suffix_index_sound *)
 Lemma suffix_index_sound_hist : forall s0 ops,
-  good s0 ->
+  good s0 -> Forall named_ok ops ->
   let s := run h s0 ops in
   good s /\
   (forall k r f, rget k (s_recs s) = Some r -> is_multi (all_froms r) = true -> In f (all_froms r) ->
@@ -19,14 +22,14 @@ Lemma suffix_index_sound_hist : forall s0 ops,
   (forall k r f froms, rget k (s_recs s) = Some r -> In f (all_froms r) -> In f froms ->
      In (k, r) (get_records s (fst k) froms)).
 Proof.
-  intros s0 ops Hg. cbn zeta. destruct (run_good h ops s0 Hg) as [Hg' _].
+  intros s0 ops Hg Hno. cbn zeta. destruct (run_good h ops s0 Hg Hno) as [Hg' _].
   split; [exact Hg'|]. destruct Hg' as (Hw & Hi & _). split; [intros k r f A B C; exact (Hi k r A B f C)|].
   intros k r f froms Hr Hf Hfr. apply (get_records_complete _ _ _ _ _ Hw Hi Hr Hf Hfr).
 Qed.
 
 (** C07_transfer_pairs *)
 Lemma transfer_pairs_hist : forall s0 ops o s' res,
-  good s0 -> is_transfer o ->
+  good s0 -> Forall named_ok ops -> is_transfer o ->
   let s := run h s0 ops in
   step h s o = (s', Some res) ->
   let ts := transfers_of o in
@@ -40,8 +43,8 @@ Lemma transfer_pairs_hist : forall s0 ops o s' res,
   (signer_ok h o -> forall d, s_bal s' h d = s_bal s h d + credited h s ts h d) /\
   s_optin s' = s_optin s /\ s_auto s' = s_auto s.
 Proof.
-  intros s0 ops o s' res Hg Ht. cbn zeta. set (s := run h s0 ops).
-  destruct (run_good h ops s0 Hg) as [(Hw & _) _]. fold s in Hw. intros Hst.
+  intros s0 ops o s' res Hg Hno Ht. cbn zeta. set (s := run h s0 ops).
+  destruct (run_good h ops s0 Hg Hno) as [(Hw & _) _]. fold s in Hw. intros Hst.
   destruct (transfer_spec h s o s' res Hw Ht Hst) as (_ & [Ho Ha] & Hb & Hr & Hk).
   split; [exact Hb|]. split; [exact Hr|]. split; [exact Hk|]. split; [|split; [|split; [exact Ho | exact Ha]]].
   - intros to Hth Hni Hall d. rewrite Hb, (debited_not_input _ _ _ Hni), (credited_all_quarantined h s _ to d Hth Hall). lia.
@@ -52,25 +55,25 @@ Qed.
 Definition not_accept (o : op) : Prop := forall to froms perm, o <> OAccept to froms perm.
 
 Lemma only_accept_lowers_holder_hist : forall s0 ops,
-  good s0 ->
+  good s0 -> Forall named_ok ops ->
   let s := run h s0 ops in
   (forall o s' res, signer_ok h o -> not_accept o -> step h s o = (s', res) -> forall d, s_bal s h d <= s_bal s' h d) /\
   (forall ops2, Forall (signer_ok h) ops2 -> Forall not_accept ops2 -> forall d, s_bal s h d <= s_bal (run h s ops2) h d).
 Proof.
-  intros s0 ops Hg. cbn zeta. destruct (run_good h ops s0 Hg) as [Hg' _]. set (s := run h s0 ops) in *.
+  intros s0 ops Hg Hno. cbn zeta. destruct (run_good h ops s0 Hg Hno) as [Hg' _]. set (s := run h s0 ops) in *.
   split.
   - intros o s' res Hs Hna Hst d. destruct Hg' as (Hw & _). apply (only_accept_lowers_holder h s o s' res Hw Hs Hst Hna d).
-  - clearbody s. clear Hg. intros ops2. revert s Hg'. induction ops2 as [|o ops2 IH]; intros s Hg Hs Hna d; cbn [run fold_left]; [lia|].
+  - clearbody s. clear Hg Hno. intros ops2. revert s Hg'. induction ops2 as [|o ops2 IH]; intros s Hg Hs Hna d; cbn [run fold_left]; [lia|].
     inversion Hs as [|? ? Hs1 Hs2]; subst. inversion Hna as [|? ? Hn1 Hn2]; subst.
     destruct (step h s o) as [s1 res] eqn:E. cbn [fst]. fold (run h s1 ops2).
-    destruct (step_good h _ _ _ _ Hg E) as [Hg1 _].
+    destruct (step_good h _ _ _ _ Hg (signer_named h o Hs1) E) as [Hg1 _].
     pose proof (only_accept_lowers_holder h s o s1 res (proj1 Hg) Hs1 E Hn1 d).
     specialize (IH s1 Hg1 Hs2 Hn2 d). lia.
 Qed.
 
 (** C07_accept_pays_out *)
 Lemma accept_pays_out_hist : forall s0 ops to froms perm k r,
-  good s0 -> covers h s0 -> Forall (signer_ok h) ops -> to <> h ->
+  good s0 -> covers h s0 -> Forall (signer_ok h) ops -> to <> h -> inj_named froms ->
   let s := run h s0 ops in
   rget k (s_recs s) = Some r -> fst k = to -> incl (q_unacc r) froms ->
   exists s' rel,
@@ -80,13 +83,13 @@ Lemma accept_pays_out_hist : forall s0 ops to froms perm k r,
     (forall d, s_bal s' to d = s_bal s to d + amt rel d) /\
     (forall d, s_bal s' h d = s_bal s h d - amt rel d).
 Proof.
-  intros s0 ops to froms perm k r Hg Hc Hs Hth. cbn zeta. set (s := run h s0 ops).
-  destruct (run_good h ops s0 Hg) as [Hg' _]. fold s in Hg'.
+  intros s0 ops to froms perm k r Hg Hc Hs Hth Hinj. cbn zeta. set (s := run h s0 ops).
+  destruct (run_good h ops s0 Hg (signers_named ops Hs)) as [Hg' _]. fold s in Hg'.
   destruct (holder_covers_records h s0 ops (proj1 Hg) Hc Hs) as (_ & Hc' & _). fold s in Hc'.
   intros Hr Hto Hincl.
-  destruct (accept_pays_out h s to froms perm k r Hg' Hc' Hth Hr Hto Hincl) as (s' & rel & Ha & Hk & Hrel).
+  destruct (accept_pays_out h s to froms perm k r Hg' Hc' Hth Hinj Hr Hto Hincl) as (s' & rel & Ha & Hk & Hrel).
   exists s', rel. cbn [step]. rewrite Ha. split; [reflexivity|]. split; [exact Hk|]. split; [exact Hrel|].
-  destruct (accept_spec h _ _ _ _ _ _ (proj1 Hg') Ha) as (_ & _ & Hb & _).
+  destruct (accept_spec h _ _ _ _ _ _ (proj1 Hg') Hinj Ha) as (_ & _ & Hb & _).
   split; intros d; rewrite Hb; unfold bal_add, bal_sub; rewrite Pos.eqb_refl.
   - destruct (Pos.eqb_spec to h); [contradiction | reflexivity].
   - destruct (Pos.eqb_spec h to); [congruence | reflexivity].
@@ -94,7 +97,7 @@ Qed.
 
 (** C07_decline_revokes_acceptance *)
 Lemma decline_revokes_hist : forall s0 ops to froms perm k r f,
-  good s0 ->
+  good s0 -> Forall named_ok ops -> inj_named froms ->
   let s := run h s0 ops in
   rget k (s_recs s) = Some r -> fst k = to -> In f (all_froms r) -> In f froms ->
   exists s' r',
@@ -104,36 +107,36 @@ Lemma decline_revokes_hist : forall s0 ops to froms perm k r f,
     (forall a d, s_bal s' a d = s_bal s a d) /\
     (* the record stays, with [f] unaccepted and no coin lost, through every continuation in
        which [to] does not send an Accept that names [f] *)
-    (forall ops2, Forall (fun o => ~ accepts_sender to f o) ops2 ->
+    (forall ops2, Forall named_ok ops2 -> Forall (fun o => ~ accepts_sender to f o) ops2 ->
        exists r2, rget k (s_recs (run h s' ops2)) = Some r2 /\ In f (q_unacc r2) /\
                   forall d, amt (q_coins r) d <= amt (q_coins r2) d).
 Proof.
-  intros s0 ops to froms perm k r f Hg. cbn zeta. set (s := run h s0 ops).
-  destruct (run_good h ops s0 Hg) as [Hg' _]. fold s in Hg'. intros Hr Hto Hf Hfr.
-  destruct (decline_revokes s to froms perm k r f Hg' Hr Hto Hf Hfr) as (s' & Hd & Hb & r' & Hr' & Hf' & Hinc & Hco & Hde).
+  intros s0 ops to froms perm k r f Hg Hno Hinj. cbn zeta. set (s := run h s0 ops).
+  destruct (run_good h ops s0 Hg Hno) as [Hg' _]. fold s in Hg'. intros Hr Hto Hf Hfr.
+  destruct (decline_revokes s to froms perm k r f Hg' Hinj Hr Hto Hf Hfr) as (s' & Hd & Hb & r' & Hr' & Hf' & Hinc & Hco & Hde).
   exists s', r'. cbn [step]. unfold lift. rewrite Hd. split; [reflexivity|].
   split; [exact Hr'|]. split; [exact Hf'|]. split; [exact Hinc|]. split; [exact Hco|]. split; [exact Hde|].
   split; [exact Hb|].
-  intros ops2 Hna.
+  intros ops2 Hno2 Hna.
   assert (Hg1 : good s').
   { assert (Hst : step h s (ODecline to froms perm) = (s', Some [])) by (cbn [step]; unfold lift; rewrite Hd; reflexivity).
-    apply (step_good h _ _ _ _ Hg' Hst). }
+    apply (step_good h s (ODecline to froms perm) s' (Some []) Hg' Hinj Hst). }
   rewrite <- Hto in Hna.
-  destruct (run_keeps h ops2 k f s' Hg1 Hna r' Hr' Hf') as (r2 & Hr2 & Hf2 & Hc2).
+  destruct (run_keeps h ops2 k f s' Hg1 Hno2 Hna r' Hr' Hf') as (r2 & Hr2 & Hf2 & Hc2).
   exists r2. split; [exact Hr2|]. split; [exact Hf2|]. intros d. rewrite <- Hco. apply Hc2.
 Qed.
 
 (** C07_unaccepted_sender_blocks_payout *)
 Lemma unaccepted_blocks_payout_hist : forall s0 ops k r f ops2,
-  good s0 ->
+  good s0 -> Forall named_ok ops -> Forall named_ok ops2 ->
   let s := run h s0 ops in
   rget k (s_recs s) = Some r -> In f (q_unacc r) ->
   Forall (fun o => ~ accepts_sender (fst k) f o) ops2 ->
   exists r2, rget k (s_recs (run h s ops2)) = Some r2 /\ In f (q_unacc r2) /\
              forall d, amt (q_coins r) d <= amt (q_coins r2) d.
 Proof.
-  intros s0 ops k r f ops2 Hg. cbn zeta. destruct (run_good h ops s0 Hg) as [Hg' _].
-  intros Hr Hf Hna. apply (run_keeps h ops2 k f _ Hg' Hna r Hr Hf).
+  intros s0 ops k r f ops2 Hg Hno Hno2. cbn zeta. destruct (run_good h ops s0 Hg Hno) as [Hg' _].
+  intros Hr Hf Hna. apply (run_keeps h ops2 k f _ Hg' Hno2 Hna r Hr Hf).
 Qed.
 
 End Histories.
